@@ -174,7 +174,7 @@ def tlc(module, cfg=None, env=None, workers=1, timeout=900, xmx=None, extra=(), 
         xmx = "500m" if workers == 1 else "4g"
     if c1 is None:
         c1 = workers == 1
-    jopts = ["-Xmx" + xmx, "-Xss64m"]
+    jopts = ["-Xmx" + xmx, "-Xss64m", "-DTLA-Library=/opt/veriftools/tlapm/lib/tlapm/stdlib"]   # TLAPS.tla for modules that carry proofs
     if c1:
         jopts.append("-XX:TieredStopAtLevel=1")
     if workers == 1:
